@@ -66,6 +66,45 @@ func (c *Ctx) tracePathsIn(f *ssa.Function, maxPaths int, stack map[*ssa.Functio
 		events []string
 		visits map[*ssa.BasicBlock]int
 		conds  map[ssa.Value]string // read value -> constant it was compared equal to on this path
+		prev   *ssa.BasicBlock
+		known  map[string]bool        // flag bit read on this path (by id) -> the value this path assumes for it
+		phiSrc map[*ssa.Phi]ssa.Value // boolean phi -> the value it took on this path
+	}
+	bitID := func(cl *ssa.Call) string { return f.Name() + "." + cl.Name() }
+	// resolveFlag follows a boolean through negations and the phis this path has passed to the ReadBit call it
+	// comes from (a flag kept in a local, "second := false; if first { second, err = c.ReadBit() }"), or to a constant.
+	resolveFlag := func(st *state, v ssa.Value) (id string, neg bool, isConst bool, cval bool, ok bool) {
+		for i := 0; i < 8; i++ {
+			switch x := v.(type) {
+			case *ssa.Const:
+				if b, isb := constBool(x); isb {
+					return "", false, true, b != neg, true
+				}
+				return
+			case *ssa.UnOp:
+				if x.Op != token.NOT {
+					return
+				}
+				neg = !neg
+				v = x.X
+			case *ssa.Phi:
+				src, has := st.phiSrc[x]
+				if !has {
+					return
+				}
+				v = src
+			default:
+				cl := callOf(v)
+				if cl == nil || !strings.HasSuffix(callQName(&cl.Call), ".ReadBit") || !isWireRead(v) {
+					return
+				}
+				if ex, isEx := v.(*ssa.Extract); isEx && ex.Index != 0 {
+					return
+				}
+				return bitID(cl), neg, false, false, true
+			}
+		}
+		return
 	}
 	seen := map[string]bool{}
 	var rec func(st state)
@@ -79,7 +118,39 @@ func (c *Ctx) tracePathsIn(f *ssa.Function, maxPaths int, stack map[*ssa.Functio
 		b := st.b
 		st.visits[b]++
 		evs := append([]string{}, st.events...)
+		if st.known == nil {
+			st.known = map[string]bool{}
+		}
+		if st.phiSrc == nil {
+			st.phiSrc = map[*ssa.Phi]ssa.Value{}
+		}
+		if st.prev != nil {
+			for pi, pb := range b.Preds {
+				if pb != st.prev {
+					continue
+				}
+				for _, in := range b.Instrs {
+					ph, ok := in.(*ssa.Phi)
+					if !ok {
+						break
+					}
+					if bt, ok := ph.Type().Underlying().(*types.Basic); ok && bt.Kind() == types.Bool {
+						st.phiSrc[ph] = ph.Edges[pi]
+					}
+				}
+				break
+			}
+		}
 		for _, in := range b.Instrs {
+			if cl, ok := in.(*ssa.Call); ok && strings.HasSuffix(callQName(&cl.Call), ".ReadBit") && isWireRead(cl) {
+				delete(st.known, bitID(cl)) // read again (a loop): a new bit
+				if eventFilter == nil || eventFilter(in) {
+					if e := c.eventOf(f, in); e == "B" {
+						evs = append(evs, "B#"+bitID(cl))
+						continue
+					}
+				}
+			}
 			if cl, ok := in.(*ssa.Call); ok {
 				if h := helperWithStream(&cl.Call); h != nil {
 					if stack[h] {
@@ -142,6 +213,11 @@ func (c *Ctx) tracePathsIn(f *ssa.Function, maxPaths int, stack map[*ssa.Functio
 				}
 			}
 			tag := condTag(t.Cond)
+			flagID, flagNeg, flagConst, flagVal, flagOK := resolveFlag(&st, t.Cond)
+			if flagOK && flagConst {
+				takeT, takeF = takeT && flagVal, takeF && !flagVal
+				tag = ""
+			}
 			for i, s := range b.Succs {
 				if (i == 0 && !takeT) || (i == 1 && !takeF) {
 					continue
@@ -150,7 +226,25 @@ func (c *Ctx) tracePathsIn(f *ssa.Function, maxPaths int, stack map[*ssa.Functio
 					continue
 				}
 				ne := evs
-				if tag != "" {
+				nk := map[string]bool{}
+				for k, v := range st.known {
+					nk[k] = v
+				}
+				if flagOK && !flagConst {
+					bitVal := (i == 0) != flagNeg // the value of the bit read on this edge
+					if kv, has := st.known[flagID]; has {
+						if kv != bitVal {
+							continue // this path already took the other value for the same bit
+						}
+					} else {
+						nk[flagID] = bitVal
+						if bitVal {
+							ne = append(append([]string{}, evs...), "[bit#"+flagID+"]")
+						} else {
+							ne = append(append([]string{}, evs...), "[!bit#"+flagID+"]")
+						}
+					}
+				} else if tag != "" {
 					if i == 0 {
 						ne = append(append([]string{}, evs...), "["+tag+"]")
 					} else {
@@ -161,7 +255,11 @@ func (c *Ctx) tracePathsIn(f *ssa.Function, maxPaths int, stack map[*ssa.Functio
 				for k, v := range st.visits {
 					nv[k] = v
 				}
-				rec(state{b: s, events: ne, visits: nv})
+				np := map[*ssa.Phi]ssa.Value{}
+				for k, v := range st.phiSrc {
+					np[k] = v
+				}
+				rec(state{b: s, events: ne, visits: nv, prev: b, known: nk, phiSrc: np})
 			}
 			return
 		case *ssa.Jump:
@@ -173,7 +271,7 @@ func (c *Ctx) tracePathsIn(f *ssa.Function, maxPaths int, stack map[*ssa.Functio
 			for k, v := range st.visits {
 				nv[k] = v
 			}
-			rec(state{b: s, events: evs, visits: nv})
+			rec(state{b: s, events: evs, visits: nv, prev: b, known: st.known, phiSrc: st.phiSrc})
 		case *ssa.Panic:
 			return
 		}
@@ -569,15 +667,30 @@ func normalisePath(p string, reader bool) string {
 						out[j] += "=" + strings.TrimPrefix(inner, "tag=")
 						break
 					}
-					if strings.HasPrefix(out[j], "B") && out[j] == "B" {
+					if out[j] == "B" || strings.HasPrefix(out[j], "B#") {
 						break
 					}
 				}
 			}
+			if strings.HasPrefix(inner, "bit#") || strings.HasPrefix(inner, "!bit#") {
+				// a branch on an identified flag bit: that read takes the value
+				want := "B#" + inner[strings.Index(inner, "#")+1:]
+				for j := len(out) - 1; j >= 0; j-- {
+					if out[j] == want {
+						if strings.HasPrefix(inner, "!") {
+							out[j] = "B=0"
+						} else {
+							out[j] = "B=1"
+						}
+						break
+					}
+				}
+				continue
+			}
 			if inner == "bit" || inner == "!bit" {
 				// a branch on a flag: the most recent bit written/read without a known value is that flag
 				for j := len(out) - 1; j >= 0; j-- {
-					if out[j] == "B" {
+					if out[j] == "B" || strings.HasPrefix(out[j], "B#") {
 						if inner == "bit" {
 							out[j] = "B=1"
 						} else {
@@ -593,6 +706,11 @@ func normalisePath(p string, reader bool) string {
 			continue
 		}
 		out = append(out, t)
+	}
+	for i := range out {
+		if strings.HasPrefix(out[i], "B#") {
+			out[i] = "B"
+		}
 	}
 	return strings.Join(out, " ")
 }
